@@ -336,7 +336,11 @@ func init() {
 					}
 				}
 				for _, name := range []string{"XORMappedAddress", "XORMappedAddress.AddToAs", "MappedAddress", "AlternateServer", "ResponseOrigin", "OtherAddress"} {
-					for n := 0; n <= 20; n++ {
+					maxIP := 20
+					if c.Thorough() {
+						maxIP = 300
+					}
+					for n := 0; n <= maxIP; n++ {
 						do(c09Case{Setter: name, N: n, Pre: pre})
 					}
 				}
@@ -349,7 +353,11 @@ func init() {
 						}
 					}
 				}
-				for code := 0; code <= 999; code++ {
+				lo, hi := 0, 999
+				if c.Thorough() {
+					lo, hi = -70000, 140000
+				}
+				for code := lo; code <= hi; code++ {
 					do(c09Case{Setter: "ErrorCode", N: code, Pre: pre})
 				}
 				// ErrorCode is an int: values outside 0..65535 whose low 8/16/32 bits are a code with a default reason
@@ -370,6 +378,14 @@ func init() {
 						do(c09Case{Setter: "Build", Pre: pre, Build: []int{a, b}})
 						for d := 0; d < 6; d++ {
 							do(c09Case{Setter: "Build", Pre: pre, Build: []int{a, b, d}})
+							if c.Thorough() {
+								for e := 0; e < 6; e++ {
+									do(c09Case{Setter: "Build", Pre: pre, Build: []int{a, b, d, e}})
+									for f := 0; f < 6; f++ {
+										do(c09Case{Setter: "Build", Pre: pre, Build: []int{a, b, d, e, f}})
+									}
+								}
+							}
 						}
 					}
 				}
